@@ -2,7 +2,8 @@
     ONLY statements pinned here; proofs live in Dashu.Cross.*.
     The estimator (EstimatedLog2::log2_bounds) is a parameter: E, egt, ib/fb/qb with ANY interpretation lo_ok/hi_ok
     such that "a lower estimate of x exceeds an upper estimate of y" implies y < x. *)
-From Dashu Require Import Base.Prelude Cross.XVal Cross.XOrdModel Cross.XDispatch Cross.XOrdProofs Cross.XPrimProofs.
+From Dashu Require Import Base.Prelude Cross.XVal Cross.XOrdModel Cross.XDispatch Cross.XOrdProofs Cross.XPrimProofs
+  Cross.XRatioProofs Cross.XDispatchProofs Cross.XHashProofs Cross.XEstInstance.
 Open Scope Z_scope.
 
 Theorem C14_nan_incomparable : forall a, spec_cmp XNaN a = None /\ spec_cmp a XNaN = None.
@@ -21,6 +22,29 @@ Hypothesis ib_ok : forall z, lo_ok (fst (ib z)) (Z.abs z, 1) /\ hi_ok (snd (ib z
 Hypothesis fb_ok : forall B s e, 2 <= B -> f_is_inf s e = false ->
   lo_ok (fst (fb B s e)) (fmag B s e) /\ hi_ok (snd (fb B s e)) (fmag B s e).
 Hypothesis qb_ok : forall n d, 0 < d -> lo_ok (fst (qb n d)) (Z.abs n, d) /\ hi_ok (snd (qb n d)) (Z.abs n, d).
+(** Repr::digits_ub: an over-estimate of the number of digits of a significand *)
+Variable dub : Z -> Z -> Z.
+Hypothesis dub_ok : forall B s, 2 <= B -> s <> 0 -> Z.abs s < B ^ dub B s.
+
+(** THE PROPERTY, first sentence.  NumOrd between any two supported types (the impl table of the three
+    num_order.rs files, primitives included) is the order of the exact values; None exactly for NaN. *)
+Theorem C14_num_ord_all_pairs : forall a b r, wf a -> wf b ->
+  ord_asis E egt ib fb qb a b = Some r -> r = spec_cmp (val a) (val b).
+Proof. exact (ord_asis_correct E egt ib fb qb lo_ok hi_ok egt_sound ib_ok fb_ok qb_ok). Qed.
+
+Theorem C14_num_ord_nan : forall a b r, wf a -> wf b -> ord_asis E egt ib fb qb a b = Some r ->
+  val a = XNaN \/ val b = XNaN -> r = None.
+Proof. exact (ord_asis_nan E egt ib fb qb lo_ok hi_ok egt_sound ib_ok fb_ok qb_ok). Qed.
+
+(** AbsOrd between any two types with an impl is the order of the magnitudes *)
+Theorem C14_abs_ord_all_pairs : forall a b c, wf a -> wf b ->
+  abs_asis E egt ib fb qb dub a b = Some c -> Some c = spec_abs_cmp (val a) (val b).
+Proof. exact (abs_asis_correct E egt ib fb qb dub lo_ok hi_ok egt_sound ib_ok fb_ok qb_ok dub_ok). Qed.
+
+(** PartialOrd / Ord of floats of one base (repr_cmp_same_base) *)
+Theorem C14_float_same_base_ord : forall B s1 e1 s2 e2, 2 <= B -> fwf s1 e1 -> fwf s2 e2 ->
+  Some (fsame_ord dub B s1 e1 s2 e2) = spec_cmp (fval B s1 e1) (fval B s2 e2).
+Proof. exact (fsame_ord_correct dub dub_ok). Qed.
 
 Theorem C14_float_ubig_ord : forall B s e u, 2 <= B -> 0 <= u ->
   Some (frepr_cmp_ubig E egt ib fb false B s e u) = spec_cmp (fval B s e) (XFin u 1).
@@ -66,6 +90,10 @@ Theorem C14_ratio_float_abs : forall n d B s e, 0 < d -> 2 <= B ->
   Some (qrepr_cmp_fbig E egt fb qb true n d B s e) = spec_abs_cmp (XFin n d) (fval B s e).
 Proof. exact (qrepr_cmp_fbig_abs E egt fb qb lo_ok hi_ok egt_sound fb_ok qb_ok). Qed.
 End PinnedEstimator.
+Print Assumptions C14_num_ord_all_pairs.
+Print Assumptions C14_num_ord_nan.
+Print Assumptions C14_abs_ord_all_pairs.
+Print Assumptions C14_float_same_base_ord.
 Print Assumptions C14_float_ubig_ord.
 Print Assumptions C14_float_ubig_abs.
 Print Assumptions C14_float_ibig_ord.
@@ -97,3 +125,56 @@ Theorem C14_ratio_primfloat_ord : forall n d mb eb bits, 0 < d -> 0 <= mb -> 1 <
   qrepr_cmp_prim n d mb eb bits = spec_cmp (XFin n d) (value_of (OPrim mb eb bits)).
 Proof. exact qrepr_cmp_prim_ord. Qed.
 Print Assumptions C14_ratio_primfloat_ord.
+
+Theorem C14_ratio_ratio_ord : forall n1 d1 n2 d2, 0 < d1 -> 0 < d2 ->
+  Some (qrepr_cmp false n1 d1 n2 d2) = spec_cmp (XFin n1 d1) (XFin n2 d2).
+Proof. exact qrepr_cmp_ord. Qed.
+Print Assumptions C14_ratio_ratio_ord.
+
+Theorem C14_ratio_ratio_abs : forall n1 d1 n2 d2, 0 < d1 -> 0 < d2 ->
+  Some (qrepr_cmp true n1 d1 n2 d2) = spec_abs_cmp (XFin n1 d1) (XFin n2 d2).
+Proof. exact qrepr_cmp_abs. Qed.
+Print Assumptions C14_ratio_ratio_abs.
+
+Theorem C14_ratio_num_eq : forall n1 d1 n2 d2, 0 < d1 -> 0 < d2 ->
+  qrepr_eq n1 d1 n2 d2 = true <-> spec_cmp (XFin n1 d1) (XFin n2 d2) = Some Eq.
+Proof. exact qrepr_eq_spec. Qed.
+Print Assumptions C14_ratio_num_eq.
+
+(** THE PROPERTY, second sentence.  Numerically equal numbers of different types (integers, floats of any base,
+    rationals with a denominator that is invertible in the hash field) feed the hasher the same i128. *)
+Theorem C14_equal_values_equal_hash : forall a b n1 d1 n2 d2 ha hb,
+  match a with TF B _ _ => 2 <= B | TQ _ d => 0 < d | _ => True end ->
+  match b with TF B _ _ => 2 <= B | TQ _ d => 0 < d | _ => True end ->
+  frac_of a = Some (n1, d1) -> frac_of b = Some (n2, d2) -> n1 * d2 = n2 * d1 ->
+  hash_asis a = Some ha -> hash_asis b = Some hb -> ha = hb.
+Proof. exact hash_equal_values. Qed.
+Print Assumptions C14_equal_values_equal_hash.
+
+Theorem C14_frac_of_is_value : forall t n d, frac_of t = Some (n, d) -> value_of (untag t) = XFin n d.
+Proof. exact frac_of_value. Qed.
+Print Assumptions C14_frac_of_is_value.
+
+(** the executable hash specification the oracle judges with is that same function of the value *)
+Theorem C14_hash_is_spec : forall a n d h i,
+  match a with TF B _ _ => 2 <= B | TQ _ d => 0 < d | _ => True end ->
+  frac_of a = Some (n, d) -> hash_asis a = Some h -> minv_euclid (d / Z.gcd n d) = Some i ->
+  h = spec_hash_fin n d.
+Proof. exact hash_asis_is_spec. Qed.
+Print Assumptions C14_hash_is_spec.
+
+(** The contract is satisfiable by an estimator that really filters (integer floor / ceiling logarithms, exact digit
+    counts): run with it, the transcribed bodies are an executable form of the specification.  The oracle uses
+    these where an exponent is too large to write the exact value down. *)
+Theorem C14_ord_run_is_spec : forall a b r, wf a -> wf b -> ord_run a b = Some r -> r = spec_cmp (val a) (val b).
+Proof. exact ord_run_is_spec. Qed.
+Print Assumptions C14_ord_run_is_spec.
+
+Theorem C14_abs_run_is_spec : forall a b c, wf a -> wf b -> abs_run a b = Some c -> Some c = spec_abs_cmp (val a) (val b).
+Proof. exact abs_run_is_spec. Qed.
+Print Assumptions C14_abs_run_is_spec.
+
+Theorem C14_fsame_run_is_spec : forall B s1 e1 s2 e2, 2 <= B -> fwf s1 e1 -> fwf s2 e2 ->
+  Some (fsame_run B s1 e1 s2 e2) = spec_cmp (fval B s1 e1) (fval B s2 e2).
+Proof. exact fsame_run_is_spec. Qed.
+Print Assumptions C14_fsame_run_is_spec.
